@@ -112,8 +112,10 @@ def _case_1d(case, spl):
     wit0 = {"cfg": cfg, "breaks": [float(b) for b in breaks], "kappa": float(kappa)}
     interp = spl.SplineInterpolator1D(basis)
     datas = _data_vectors(rs, nb, xs)
-    for dname, u in datas:
-        s = spl.Spline1D(basis)
+    s_shared = spl.Spline1D(basis)
+    for di, (dname, u) in enumerate(datas):
+        # every second data set goes into the SAME spline object (coefficients of the previous interpolation still in it)
+        s = s_shared if di % 2 else spl.Spline1D(basis)
         interp.compute_interpolant(u.copy(), s)
         c = s.coeffs.copy()
         scale = float(np.abs(u).max()) + 1e-300
